@@ -3483,13 +3483,15 @@ hwloc_linux_knl_add_cluster(struct hwloc_topology *topology,
     assert(ddr);
     ddr->subtype = strdup("DRAM");
 
-    /* Add a Group for Cluster containing this MCDRAM + DDR */
-    cluster = hwloc_alloc_setup_object(topology, HWLOC_OBJ_GROUP, HWLOC_UNKNOWN_INDEX);
-    hwloc_obj_add_other_obj_sets(cluster, ddr);
-    hwloc_obj_add_other_obj_sets(cluster, mcdram);
-    cluster->subtype = strdup("Cluster");
-    cluster->attr->group.kind = HWLOC_GROUP_KIND_INTEL_KNL_SUBNUMA_CLUSTER;
-    cluster = hwloc__insert_object_by_cpuset(topology, NULL, cluster, "linux:knl:snc:group");
+    /* Add a Group for Cluster containing this MCDRAM + DDR, unless Groups are filtered out */
+    if (hwloc_filter_check_keep_object_type(topology, HWLOC_OBJ_GROUP)) {
+      cluster = hwloc_alloc_setup_object(topology, HWLOC_OBJ_GROUP, HWLOC_UNKNOWN_INDEX);
+      hwloc_obj_add_other_obj_sets(cluster, ddr);
+      hwloc_obj_add_other_obj_sets(cluster, mcdram);
+      cluster->subtype = strdup("Cluster");
+      cluster->attr->group.kind = HWLOC_GROUP_KIND_INTEL_KNL_SUBNUMA_CLUSTER;
+      cluster = hwloc__insert_object_by_cpuset(topology, NULL, cluster, "linux:knl:snc:group");
+    }
   }
 
   if (cluster) {
